@@ -51,7 +51,8 @@ REQUIRED_THEOREMS = [
     "Acn.C19.all_gone_at_end", "Acn.C19.stale_unplug_noop", "Acn.C19.deterministic_given_choices",
     "Acn.C19.wellFormed_protocol", "Acn.C19.starvation_free", "Acn.C19.all_gone_after_horizon",
     "Acn.C19.eventCore_history_wellFormed", "Acn.C19.end_to_end", "Acn.C19.end_to_end_properties",
-    "Acn.C19.end_to_end_ledger_partial",
+    "Acn.C19.end_to_end_ledger_partial", "Acn.C19.end_to_end_sim", "Acn.C19.end_to_end_sim_properties",
+    "Acn.C19.end_to_end_sim_energy",
 ]
 BUDGET = {"quick": 2000, "thorough": 15000, "search": 12000}
 TRUSTED = ["heapq: in the history-level model the order among equal keys is taken from the implementation's own "
@@ -59,7 +60,11 @@ TRUSTED = ["heapq: in the history-level model the order among equal keys is take
            "transcription of CPython's array heap and compared with the implementation",
            "random.choice(seq) returns an element of seq (its index is the model's input)",
            "OrderedDict insertion order / popitem(last=False) / move_to_end; dict order of _EVSEs",
-           "EV.fully_charged is an input of the model (read from the implementation each period)",
+           "EV.fully_charged is an input of the history-level model (read from the implementation each period); in the "
+           "FULL simulator model (Acn.SimSt.run, theorems end_to_end_sim / end_to_end_sim_energy) it is computed from the "
+           "energies the model itself delivers - executed for the hand-built networks with the harness' scheduler "
+           "(pilots, rates, energies, EVSE pilots compared each period); with the package's real algorithms and the "
+           "factory-built networks the scheduler's output is not modelled and fully_charged stays an input",
            "PYTHONHASHSEED: independence of the interpreter's string hashing is EXPLORED (2 worker processes with "
            "pinned, different hash seeds + the harness process per cross-process case; 3 in the thorough tier), not "
            "proved; the model takes the registration order of a factory-built network from the implementation"]
@@ -386,7 +391,10 @@ def _make_net(case, log):
             finally:
                 self._in_post = False
             log["trace"].append({"op": "post", "full": full, "before": before,
-                                 "early_calls": log["early_calls"], "snap": snap(self)})
+                                 "early_calls": log["early_calls"], "snap": snap(self),
+                                 # numeric side of the period that has just been charged (full-simulator model)
+                                 "energy": {k: float(v.energy_delivered) for k, v in sorted(evs.items())},
+                                 "evse_pilot": [float(e.current_pilot) for e in self._EVSEs.values()]})
 
     fac = case.get("factory")
     if fac is None:
@@ -749,6 +757,14 @@ def model_request(case, obs):
         req["ledger"] = {"req": [{"id": s["id"], "kwh": f2b(I.num(s["kwh"]))} for s in case["sessions"]],
                          "per_period": f2b((32.0 * _volt(case)) / 1000 * (PERIOD / 60)), "eps": f2b(1e-3),
                          "mode": case.get("sched", "gen")}
+        if case.get("factory") is None:
+            # the FULL simulator model on the stochastic network (Acn.SimSt.run, theorem end_to_end_sim): pilot
+            # matrix, EVSE rate check, ideal batteries, delivered energies, charging-rate matrix; fully_charged
+            # computed from the model's own energies.  Hand-built networks: EVSE(sid, max_rate=32) at VOLT,
+            # Battery(100, 0, 50), the harness' scheduler with max_recompute = 1
+            req["sim"] = {"V": f2b(VOLT), "period": f2b(PERIOD), "amps": f2b(32.0), "max_rate": f2b(32.0),
+                          "mode": case.get("sched", "gen"), "batt": [f2b(100.0), f2b(0.0), f2b(50.0)],
+                          "evs": [{"id": s["id"], "kwh": f2b(I.num(s["kwh"]))} for s in case["sessions"]]}
     return req
 
 
@@ -845,7 +861,54 @@ def compare(case, obs, model):
         for x, bits in ll["delivered"]:
             if not close(obs["delivered"][x], b2f(bits)):
                 out.append(f"ledger loop: energy delivered to {x} impl={obs['delivered'][x]} model={b2f(bits)}")
+    # ... and the FULL simulator model (pilots, EVSEs, batteries, energies, rates; fully_charged computed)
+    ls = model.get("loop_sim")
+    if ls is not None:
+        _cmp_sim(obs, ls, tr, posts, out)
     return out
+
+
+def _cmp_mat(name, a, m, out):
+    m = [[b2f(x) for x in row] for row in m]
+    if [len(r) for r in a] != [len(r) for r in m]:
+        out.append(f"sim loop: {name} shape impl={[len(r) for r in a]} model={[len(r) for r in m]}")
+        return
+    for i, (ra, rm) in enumerate(zip(a, m)):
+        for t, (x, y) in enumerate(zip(ra, rm)):
+            if not close(x, y):
+                out.append(f"sim loop: {name}[station {i}, period {t}] impl={x} model={y}")
+                return
+
+
+def _cmp_sim(obs, ls, tr, posts, out):
+    n0 = len(out)
+    if ls["err"] != obs["err"]:
+        out.append(f"sim loop: error impl={obs['err']} model={ls['err']}")
+    if [list(e) for e in ls["events"]] != [list(e) for e in obs["events"]]:
+        out.append(f"sim loop: event_history impl={obs['events']} model={ls['events']}")
+    if obs["err"] is None and (ls["iterations"] != obs["iterations"] or not ls["queue_empty"]):
+        out.append(f"sim loop: iterations impl={obs['iterations']} model={ls['iterations']} queue_empty={ls['queue_empty']}")
+    if len(posts) != len(ls["periods"]):
+        out.append(f"sim loop: periods impl={len(posts)} model={len(ls['periods'])}")
+    post_steps = [st for st in tr if st["op"] == "post"]
+    for t, (a, m) in enumerate(zip(post_steps, ls["periods"])):
+        _cmp_snap(a["snap"], m["snap"], f"sim loop period {t}", out, blank_none=True)
+        for x, bits in m["delivered"]:
+            if not close(a["energy"][x], b2f(bits)):
+                out.append(f"sim loop period {t}: energy delivered to {x} impl={a['energy'][x]} model={b2f(bits)}")
+        mp = [b2f(b) for b in m["evse_pilot"]]
+        if len(mp) != len(a["evse_pilot"]) or not all(close(x, y) for x, y in zip(a["evse_pilot"], mp)):
+            out.append(f"sim loop period {t}: EVSE.current_pilot impl={a['evse_pilot']} model={mp}")
+        if len(out) - n0 > 8:
+            return
+    _cmp_snap(obs["final"], ls["final"], "sim loop final", out, blank_none=True)
+    if ls["final"]["draws"] != len(obs["choices"]):
+        out.append(f"sim loop: random.choice calls impl={len(obs['choices'])} model={ls['final']['draws']}")
+    for x, bits in ls["delivered"]:
+        if not close(obs["delivered"][x], b2f(bits)):
+            out.append(f"sim loop: energy delivered to {x} impl={obs['delivered'][x]} model={b2f(bits)}")
+    _cmp_mat("pilot_signals", obs["pilots"], ls["pilots"], out)
+    _cmp_mat("charging_rates", obs["rates"], ls["rates"], out)
 
 
 # ------------------------------------------------------------------ property oracle
